@@ -191,7 +191,11 @@ func ruleTagSymmetry(w *World, r *Recorder, rule string) {
 }
 
 // ruleOptions: the option literal handed to EncMode()/DecMode().
-func ruleOptions(w *World, r *Recorder, rule, typeName string) {
+func ruleOptions(w *World, r *Recorder, rule, typeName string, accept ...string) {
+	acceptance := ""
+	if len(accept) > 0 {
+		acceptance = accept[0]
+	}
 	lits := w.optionLiterals(typeName)
 	if len(lits) == 0 {
 		r.Undecide(rule, typeName, "-", "no "+typeName+" literal found in the repository")
@@ -252,6 +256,65 @@ func ruleOptions(w *World, r *Recorder, rule, typeName string) {
 		if okAll {
 			r.Prove(rule, key, w.FnPos(ol.Fn), "IndefLength=forbidden; other options at library defaults ("+strings.Join(names, ",")+" set)", true)
 		}
+		if typeName == "DecOptions" && acceptance != "" {
+			ruleDecoderAccepts(w, r, rule, key, ol, acceptance)
+		}
+	}
+}
+
+// ruleDecoderAccepts: the acceptance side of the decoder's limits. Validation
+// and the encoder put no bound on the length of the component list, and C04
+// ignores any number of unknown keys, so every limit the decoder applies to
+// array and map lengths cuts valid / conformant inputs off; the construct names
+// the effective limit so that only the pinned library defaults can be listed as
+// a known finding. Nesting: the library refuses MaxNestedLevels < 4 and the
+// deepest claims value is map > array > map.
+func ruleDecoderAccepts(w *World, r *Recorder, rule, key string, ol OptionLiteral, mode string) {
+	// the construct does not name the enclosing function: the finding is about
+	// the effective limit, whichever function builds the mode
+	key = "decoder"
+	eff := func(f string, def int64) (int64, bool) {
+		v, set := ol.Fields[f]
+		if !set {
+			return def, true
+		}
+		n, ok := constant.Int64Val(v)
+		if ok && n == 0 {
+			return def, true
+		}
+		return n, ok
+	}
+	if n, ok := eff("MaxArrayElements", 131072); ok {
+		r.Refute(rule, fmt.Sprintf("%s#accepts:MaxArrayElements=%d", key, n), w.FnPos(ol.Fn), fmt.Sprintf("the decoder rejects arrays of more than %d elements while validation and the encoder put no bound on the software-component list: a valid claims-set with %d components encodes to bytes the decoder refuses", n, n+1))
+	} else {
+		r.Undecide(rule, key+"#accepts:MaxArrayElements", w.FnPos(ol.Fn), "limit is not an integer constant")
+	}
+	n, ok := eff("MaxMapPairs", 131072)
+	switch {
+	case !ok:
+		r.Undecide(rule, key+"#accepts:MaxMapPairs", w.FnPos(ol.Fn), "limit is not an integer constant")
+	case mode == "any-map":
+		r.Refute(rule, fmt.Sprintf("%s#accepts:MaxMapPairs=%d", key, n), w.FnPos(ol.Fn), fmt.Sprintf("the decoder rejects maps of more than %d pairs while unknown extra keys are to be ignored: a conformant token padded with %d unknown keys is rejected", n, n))
+	default:
+		// own encodings only: the largest map the encoder emits
+		most := 0
+		for _, ws := range wireStructs(w, r, rule) {
+			c := 0
+			for _, f := range ws.Schema {
+				if f.HasCBOR && f.CBORKey != "-" {
+					c++
+				}
+			}
+			if c > most {
+				most = c
+			}
+		}
+		r.Check(n >= int64(most) && most > 0, rule, key+"#accepts:MaxMapPairs", w.FnPos(ol.Fn), fmt.Sprintf("the largest map the encoder emits has %d pairs ≤ the decoder's limit %d", most, n), fmt.Sprintf("the decoder rejects maps of more than %d pairs but the encoder emits maps of up to %d", n, most))
+	}
+	if n, ok := eff("MaxNestedLevels", 32); ok {
+		r.Check(n >= 4, rule, key+"#accepts:MaxNestedLevels", w.FnPos(ol.Fn), fmt.Sprintf("nesting limit %d ≥ 4 > depth of a claims map (map > array > map)", n), fmt.Sprintf("nesting limit %d is below the depth of a claims map", n))
+	} else {
+		r.Undecide(rule, key+"#accepts:MaxNestedLevels", w.FnPos(ol.Fn), "limit is not an integer constant")
 	}
 }
 
@@ -596,7 +659,7 @@ func checkC10(w *World, r *Recorder) propInfo {
 	r.Floor("C10-W1", 26)
 	r.Floor("C10-W3", 26)
 	r.Floor("C10-W4", 1)
-	r.Floor("C10-W5", 2)
+	r.Floor("C10-W5", 1)
 	r.Floor("C10-W6", 2)
 	return info
 }
@@ -615,10 +678,10 @@ func checkC09(w *World, r *Recorder) propInfo {
 	ruleNilable(w, r, "C09-I3")
 	ruleKeys(w, r, "C09-I4", false)
 	ruleOptions(w, r, "C09-I5e", "EncOptions")
-	ruleOptions(w, r, "C09-I5d", "DecOptions")
+	ruleOptions(w, r, "C09-I5d", "DecOptions", "own-encodings")
 	ruleModesInitOnly(w, r, "C09-I5")
 	ruleEncodeReturnsCodecOutput(w, r, "C09-I6", false)
-	r.Floor("C09-I1", 2)
+	r.Floor("C09-I1", 1)
 	r.Floor("C09-I2", 2)
 	r.Floor("C09-I3", 26)
 	r.Floor("C09-I4", 26)
@@ -637,7 +700,7 @@ func checkC04(w *World, r *Recorder) propInfo {
 	ruleKeys(w, r, "C04-T1", true)
 	ruleUnmarshalShape(w, r, "C04-T2", "UnmarshalCBOR", false)
 	ruleContainerCodec(w, r, "C04-T2c", false)
-	ruleOptions(w, r, "C04-T3", "DecOptions")
+	ruleOptions(w, r, "C04-T3", "DecOptions", "any-map")
 	ruleModesInitOnly(w, r, "C04-T3m")
 	// T4: the decode gate
 	sub := NewRecorder(r.Property)
@@ -656,7 +719,7 @@ func checkC04(w *World, r *Recorder) propInfo {
 	r.Floor("C04-T1", 26)
 	r.Floor("C04-T2", 2)
 	r.Floor("C04-T3", 1)
-	r.Floor("C04-T4", 3)
+	r.Floor("C04-T4", 1)
 	r.Floor("C04-T5", 25)
 	r.Floor("C04-T6", 1)
 	return info
